@@ -30,9 +30,9 @@ THEOREMS = [NS + t for t in (
     'C08_independent', 'C08_depOn_iff', 'C08_frozen_independent',
     'C08_frozen_value', 'C08_frozen_constant',
     'C08_preserves', 'C08_preserves_live', 'C08_output_live', 'C08_preserves_of_evaluatedAtTrim',
-    'C08_wf', 'C08_persist', 'C08_persist_commutes', 'C08_error_iff',
+    'C08_wf', 'C08_failed_trim_atomic', 'C08_retrim_ready', 'C08_retrim_preserves', 'C08_persist', 'C08_persist_commutes', 'C08_error_iff',
     'C08_trim_inv', 'C08_trimmed_engine', 'C08_preserves_inst', 'semOv_local', 'C08_preserves_drv',
-    'C08_asWritten_counterexample', 'C08_asWritten_not_evaluatedAtTrim', 'C08_wf_dangling_counterexample')]
+    'C08_asWritten_counterexample', 'C08_asWritten_not_evaluatedAtTrim')]
 DESIGN_REF = 'DESIGN.md §7 C08'
 RULE = ('random DAG workbooks (2-14 cells on one or two sheets, blank cells, range nodes incl. 2-D, ranges over formula '
         'cells that read other ranges, cross-sheet references; formulas =ref, a&"|"&b…, a+b, SUM, COUNT, INDEX) x input '
@@ -62,7 +62,8 @@ ASSUMPTIONS = [
 TRUSTED = ['modelled, not verified: openpyxl, networkx, ruamel.yaml/json/pickle codecs, the concrete formula '
            'evaluator of pycel (compared only on the generated language)']
 REQUIRED_BUCKETS = ['never:exh', 'partly:exh', 'fully:exh', 'never:flt', 'partly:flt', 'fully:flt', 'never:leaf', 'partly:leaf', 'fully:leaf',
-                    'never:buried', 'partly:buried', 'fully:buried', 'never:range', 'partly:range', 'fully:range']
+                    'raw:column', 'raw:row', 'raw:cycles', 'never:retry', 'partly:retry', 'fully:retry',
+                    'never:retrim', 'partly:retrim', 'fully:retrim', 'never:buried', 'partly:buried', 'fully:buried', 'never:range', 'partly:range', 'fully:range']
 EXHAUSTIVE = False
 EXPLANATION = ('theorems: every workbook/input list/output list/engine state/assignment; correspondence: real '
                'trim_graph + to_file/from_file vs compiled model (status, set(cell_map), lost formulas, every output '
@@ -246,23 +247,96 @@ def _round_writes(nodes, rnd):
     return rnd
 
 
+def raw_impl(case):
+    """scripted scenarios outside the node language (whole-column references, iterative mode): 'raw-ok' when the trimmed,
+    the trimmed+reloaded and the untrimmed real model agree exactly on the output after every write"""
+    from pycel import ExcelCompiler
+    a, b1, b2, w1, w2 = case['vals']
+    kind = case['raw']
+    if kind == 'column':        # C1 reads a whole column none of whose cells is an input
+        cells = {'Sheet1!A1': a, 'Sheet1!B1': b1, 'Sheet1!B2': b2, 'Sheet1!C1': '=A1+SUM(B:B)'}
+        kw, pre = {}, [('E', 'Sheet1!C1')] if case['evaluated'] else []
+    elif kind == 'row':
+        cells = {'Sheet1!A1': a, 'Sheet1!A2': b1, 'Sheet1!B2': b2, 'Sheet1!C1': '=A1+SUM(2:2)'}
+        kw, pre = {}, [('E', 'Sheet1!C1')] if case['evaluated'] else []
+    else:                       # iterative mode: B2 evaluated, then its precedent changes, then the trim freezes B2
+        cells = {'Sheet1!A1': a, 'Sheet1!B1': b1, 'Sheet1!B2': '=B1*5', 'Sheet1!C1': '=A1+B2'}
+        kw = {'cycles': {'iterations': 100, 'tolerance': 0.001}}
+        pre = [('E', 'Sheet1!C1'), ('S', 'Sheet1!B1', b2)] if case['evaluated'] else [('S', 'Sheet1!B1', b2)]
+    T, U = pyc.compiler_from(cells, **kw), pyc.compiler_from(cells, **kw)
+    for c in (T, U):
+        for op in pre:
+            if op[0] == 'E':
+                c.evaluate(op[1])
+            else:
+                c.evaluate(op[1])
+                c.set_value(op[1], op[2])
+    U.evaluate('Sheet1!C1')
+    T.trim_graph(['Sheet1!A1'], ['Sheet1!C1'])
+    with tempfile.TemporaryDirectory(prefix='c08-') as d:
+        path = os.path.join(d, 'm.' + case['fmt'])
+        T.to_file(path)
+        L = ExcelCompiler.from_file(path)
+    for k, w in enumerate([None, w1, w2]):
+        if k:
+            for c in (T, L, U):
+                c.set_value('Sheet1!A1', w)
+        t, l, u = (core.enc(c.evaluate('Sheet1!C1')) for c in (T, L, U))
+        if not t == l == u:
+            return f'step {k}: trimmed {core.show(t)}, reloaded {core.show(l)}, untrimmed {core.show(u)}'
+    return 'raw-ok'
+
+
+def _trim(comp, nodes, I, O):
+    """-> 'ok' | 'err:input' (the ValueError of an input no output depends on); anything else propagates"""
+    try:
+        comp.trim_graph([nodes[i][1] for i in I], [nodes[o][1] for o in O])
+        return 'ok'
+    except ValueError as exc:
+        if 'usually means no outputs are dependant on it' in str(exc):
+            return 'err:input'
+        raise
+
+
 def impl(case):
     from pycel import ExcelCompiler
+    if case.get('raw'):
+        return raw_impl(case)
     nodes, I, O = case['nodes'], case['I'], case['O']
     key = json.dumps(case, sort_keys=True)
     cells = cells_of(nodes)
-    T, U = pyc.compiler_from(cells), pyc.compiler_from(cells)
-    _replay(T, nodes, case['pre'])
-    _replay(U, nodes, case['pre'])
-    side = {'u': [], 't': [], 'l': [], 'frozen': []}
+    # T: the model under test.  U: the reference — the same history without the trim under test and without the
+    # REJECTED earlier trims (an accepted earlier trim is part of the reference: it is destructive by design).
+    # F: a fresh model that only sees the final, corrected trim (when no earlier trim was accepted).
+    T, U, F = pyc.compiler_from(cells), pyc.compiler_from(cells), pyc.compiler_from(cells)
+    for c in (T, U, F):
+        _replay(c, nodes, case['pre'])
+    side = {'u': [], 't': [], 'l': [], 'f': [], 'frozen': []}
     _SIDE[key] = side
-    try:
-        T.trim_graph([nodes[i][1] for i in I], [nodes[o][1] for o in O])
-    except ValueError as exc:
-        if 'usually means no outputs are dependant on it' in str(exc):
-            side['err'] = True
-            return 'err:input'
-        raise
+    out = []
+    accepted = False
+    for pr in case.get('priors', []):
+        st = _trim(T, nodes, pr['I'], pr['O'])
+        out.append('P:' + st)
+        if st == 'ok':
+            accepted = True
+            if _trim(U, nodes, pr['I'], pr['O']) != 'ok':
+                raise RuntimeError('reference model rejected a trim the model under test accepted')
+        else:
+            # a rejected call has put the outputs and their precedents into the cell map, as an evaluate would
+            for c in (U, F):
+                for o in pr['O']:
+                    c.evaluate(nodes[o][1])
+        for c in (T, U, F):
+            _replay(c, nodes, pr['mid'])
+    if accepted or not case.get('priors'):
+        F = None
+    st = _trim(T, nodes, I, O)
+    if st != 'ok':
+        side['err'] = True
+        return ';'.join(out + [st])
+    if F is not None and _trim(F, nodes, I, O) != 'ok':
+        raise RuntimeError('fresh model rejected the corrected trim')
     index = {_addr_key(n[1]): i for i, n in enumerate(nodes)}
     keep = sorted(index.get(a, 10 ** 6) for a in T.cell_map)
     lost = sorted(index[a] for a, c in T.cell_map.items()
@@ -277,17 +351,17 @@ def impl(case):
         L = ExcelCompiler.from_file(path)
     for o in O:
         U.evaluate(nodes[o][1])
-    out = ['ok', 'K' + ','.join(map(str, keep)), 'Z' + ','.join(map(str, lost))]
+    out += ['ok', 'K' + ','.join(map(str, keep)), 'Z' + ','.join(map(str, lost))]
 
     def do_round(rnd, compared):
         ws = _round_writes(nodes, rnd)
         as_range = bool(rnd) and rnd[0] == 'R' and all(
-            _addr_key(nodes[m][1]) in c.cell_map for m, _ in ws for c in (T, U, L))
+            _addr_key(nodes[m][1]) in c.cell_map for m, _ in ws for c in (T, U, L) + ((F,) if F else ()))
         if as_range:
             rn = nodes[rnd[1]]
             vals = [_py(t) for t in rnd[2]]
             grid = [vals[r * rn[3]:(r + 1) * rn[3]] for r in range(rn[2])]
-            for c in (T, U, L):
+            for c in (T, U, L) + ((F,) if F else ()):
                 c.set_value(rn[1], grid)
             acks = ['ok'] * len(ws)
         else:
@@ -297,7 +371,10 @@ def impl(case):
                 acks.append(_write(T, nodes, i, v))
                 _write(U, nodes, i, v)
                 _write(L, nodes, i, v)
+                if F:
+                    _write(F, nodes, i, v)
         t_out, l_out, u_out = _outs(T, nodes, O), _outs(L, nodes, O), _outs(U, nodes, O)
+        side['f'].append(_outs(F, nodes, O) if F else None)
         side['t'].append(t_out)
         side['l'].append(l_out)
         side['u'].append(u_out)
@@ -315,6 +392,8 @@ def impl(case):
 # model side
 
 def model_lines(case):
+    if case.get('raw'):
+        return ['c08 raw']
     nodes = case['nodes']
     toks = ['c08', str(len(nodes))]
     for n in nodes:
@@ -333,6 +412,13 @@ def model_lines(case):
     toks.append(str(len(case['pre'])))
     for op in case['pre']:
         toks += ['S', str(op[1]), op[2]] if op[0] == 'S' else ['E', str(op[1])]
+    toks.append(str(len(case.get('priors', []))))
+    for pr in case.get('priors', []):
+        toks += [str(len(pr['I']))] + [str(i) for i in pr['I']]
+        toks += [str(len(pr['O']))] + [str(o) for o in pr['O']]
+        toks.append(str(len(pr['mid'])))
+        for op in pr['mid']:
+            toks += ['S', str(op[1]), op[2]] if op[0] == 'S' else ['E', str(op[1])]
     toks.append(str(len(case['rounds'])))
     for rnd in case['rounds']:
         ws = _round_writes(nodes, rnd)
@@ -380,7 +466,7 @@ def oracles(results):
         if side is None or side.get('err'):
             continue
         nodes, O = r.case['nodes'], r.case['O']
-        if not r.impl.startswith('ok;'):
+        if ';ok;K' not in ';' + r.impl:
             yield r.case, f'trim_graph or save/load raised: {r.impl[:160]}'
             continue
         bad = False
@@ -392,19 +478,26 @@ def oracles(results):
                 break
         if bad:
             continue
-        for k, (t, l, u) in enumerate(zip(side['t'], side['l'], side['u'])):
+        ref = 'untrimmed' if not any(x == 'P:ok' for x in r.impl.split(';')) else 'once-trimmed (reference)'
+        for k, (t, l, u, fr) in enumerate(zip(side['t'], side['l'], side['u'], side['f'])):
             what = f'round #{k}' if k < len(r.case['rounds']) else 'extra round'
+            if fr is not None and fr != t:
+                yield r.case, (f'{what}: after a rejected trim_graph and the corrected call the outputs are '
+                               f'{[core.show(x) for x in t]}, a fresh model trimmed once with the corrected lists '
+                               f'gives {[core.show(x) for x in fr]}')
+                bad = True
+                break
             for o, a, b, c in zip(O, t, l, u):
                 if c.startswith('!'):
                     yield r.case, f'{what}: untrimmed model raised on {nodes[o][1]}: {c}'
                     bad = True
                 elif a != c:
                     yield r.case, (f'{what}: output {nodes[o][1]} = {core.show(a)} on the trimmed model but '
-                                   f'{core.show(c)} on the untrimmed model')
+                                   f'{core.show(c)} on the {ref} model')
                     bad = True
                 elif b != c:
                     yield r.case, (f'{what}: output {nodes[o][1]} = {core.show(b)} on the trimmed+reloaded model but '
-                                   f'{core.show(c)} on the untrimmed model')
+                                   f'{core.show(c)} on the {ref} model')
                     bad = True
                 if bad:
                     break
@@ -450,10 +543,16 @@ def _ikind(case):
 
 
 def bucket(case):
+    if case.get('raw'):
+        return 'raw:' + case['raw']
+    if case.get('priors'):
+        return case['cfg'] + ':' + case['ptype']
     return case['cfg'] + ':' + ('exh' if case.get('exh') else 'flt' if case.get('flt') else _ikind(case))
 
 
 def nontrivial(case):
+    if case.get('raw'):
+        return True
     nodes, I, O = case['nodes'], case['I'], case['O']
     clo = closure(nodes)
     ic = set(input_cells(nodes, I))
@@ -745,8 +844,76 @@ def exhaustive_cases(thorough):
                        'I': I, 'O': O, 'pre': _fixed_pre(w, cfg), 'rounds': rounds, 'extra': extra, 'exh': 1}
 
 
+def raw_cases(thorough):
+    k = 0
+    for kind in ('column', 'row', 'cycles'):
+        for vals in ([5, 1, 2, 8, 0.1], [0.1, 0.2, 1 / 3, 0.7, -3], [0, 4, 10, 1, 2]) if thorough else ([5, 4, 10, 8, 0.1],):
+            for ev in (0, 1):
+                for fmt in ('yml', 'json', 'pkl') if thorough else ('json',):
+                    k += 1
+                    yield {'raw': kind, 'vals': vals, 'evaluated': ev, 'fmt': fmt}
+
+
+def with_retry(rng, case):
+    """a REJECTED trim_graph call first: the input list names an evaluated value cell nothing depends on instead of the
+    last input; the caller goes on (evaluates, writes) and calls again with the corrected lists"""
+    nodes = [list(n) for n in case['nodes']]
+    nodes.append(['I', 'Sheet1!G9', _tok(3)])
+    x = len(nodes) - 1
+    I = case['I']
+    wrong = I[:-1] + [x] if rng.random() < 0.7 else I + [x]
+    leaves = [i for i, n in enumerate(nodes[:-1]) if n[0] == 'I']
+    mid = []
+    for _ in range(rng.randint(0, 3)):
+        if leaves and rng.random() < 0.5:
+            mid.append(['S', rng.choice(leaves), _tok(rand_float(rng) if case.get('flt') else rand_value(rng))])
+        else:
+            mid.append(['E', rng.randrange(len(nodes))])
+    c = dict(case, nodes=nodes, pre=case['pre'] + [['E', x]], priors=[{'I': wrong, 'O': case['O'], 'mid': mid}],
+             ptype='retry')
+    return c
+
+
+def with_retrim(rng, case):
+    """an ACCEPTED trim_graph call first, then the call under test on the already trimmed model with the same, a smaller
+    or a larger input / output list"""
+    nodes, I, O = case['nodes'], case['I'], case['O']
+    n = len(nodes)
+    r = rng.random()
+    I1, O1 = list(I), list(O)
+    if r < 0.3:
+        pass                                            # same lists twice
+    elif r < 0.5 and len(I) > 1:
+        I1 = I[:-1]                                     # the second call has a larger input list
+    elif r < 0.7:
+        I1 = I + [i for i in [rng.randrange(n)] if i not in I]      # … a smaller one
+    elif r < 0.85 and len(O) > 1:
+        O1 = O[:-1]                                     # … a larger output list
+    else:
+        O1 = O + [o for o in [rng.randrange(n)] if o not in O]      # … a smaller one
+    # between the calls only value cells are written (should the first call be rejected, a buried input is still a
+    # formula cell); the second call lists no value cell that feeds none of its outputs: whether that raises depends on
+    # the dependency graph, which keeps the edges of deleted cells (not compared)
+    w = [i for i in writable(nodes, I1, O1) if nodes[i][0] == 'I']
+    clo = closure(nodes)
+    fed = set().union(*[clo[o] | {o} for o in O])
+    I2 = [i for i in I if nodes[i][0] != 'I' or i in fed] or I
+    case = dict(case, I=I2)
+    mid = []
+    for _ in range(rng.randint(0, 3)):
+        if w and rng.random() < 0.6:
+            mid.append(['S', rng.choice(w), _tok(rand_float(rng) if case.get('flt') else rand_value(rng, False))])
+        else:
+            mid.append(['E', rng.choice(O1)])
+    # no writes before the first trim: a cell it deletes and the second call re-creates (larger output list) comes back
+    # from the attached workbook with its file value, not with the written one (outside the property, see ASSUMPTIONS)
+    pre = [op for op in case['pre'] if op[0] == 'E']
+    return dict(case, pre=pre, priors=[{'I': I1, 'O': O1, 'mid': mid}], ptype='retrim')
+
+
 def cases(tier, rng):
     thorough = tier == 'thorough'
+    yield from raw_cases(thorough)
     yield from exhaustive_cases(thorough)
     cfgs = ['never', 'partly', 'fully']
     fmts = ['json', 'yml', 'pkl', 'json']
@@ -756,8 +923,9 @@ def cases(tier, rng):
             cfg = cfgs[k % 3]
             I, O = gen_io(rng, nodes)
             rounds, extra = gen_rounds(rng, nodes, I, O, rng.randint(2, 3))
-            yield {'cfg': cfg, 'fmt': fmts[(k // 3) % 4], 'nodes': nodes, 'I': I, 'O': O,
-                   'pre': gen_pre(rng, nodes, cfg), 'rounds': rounds, 'extra': extra}
+            c = {'cfg': cfg, 'fmt': fmts[(k // 3) % 4], 'nodes': nodes, 'I': I, 'O': O,
+                 'pre': gen_pre(rng, nodes, cfg), 'rounds': rounds, 'extra': extra}
+            yield [c, with_retry(rng, c), with_retrim(rng, c)][(k // 3) % 3] if k % 2 else c
     # float-valued workbooks with threshold outputs
     for k in range(2400 if thorough else 600):
         nodes = gen_workbook(rng, flt=True)
@@ -766,5 +934,6 @@ def cases(tier, rng):
             cfg = cfgs[k % 3]
             I, O = gen_io(rng, nodes, must_out=thr[:1] if rng.random() < 0.8 else ())
             rounds, extra = gen_rounds(rng, nodes, I, O, rng.randint(2, 3), flt=True)
-            yield {'cfg': cfg, 'fmt': fmts[(k // 3) % 4], 'nodes': nodes, 'I': I, 'O': O, 'flt': 1,
-                   'pre': gen_pre(rng, nodes, cfg, flt=True), 'rounds': rounds, 'extra': extra}
+            c = {'cfg': cfg, 'fmt': fmts[(k // 3) % 4], 'nodes': nodes, 'I': I, 'O': O, 'flt': 1,
+                 'pre': gen_pre(rng, nodes, cfg, flt=True), 'rounds': rounds, 'extra': extra}
+            yield [c, with_retry(rng, c), with_retrim(rng, c)][(k // 3) % 3] if k % 2 else c
